@@ -1,5 +1,6 @@
 SPECIFICATION Spec
 CONSTANTS MaxEdit = 4  MaxInv = 4  MaxKill = 2  MaxFail = 1  GenDepth = 160
+CONSTANT Flags = {"plain"}
 CONSTANT Weak = {}
 INVARIANT GenPrint
 CHECK_DEADLOCK FALSE
